@@ -94,7 +94,7 @@ C10(i) ==
                   <<"C10.wellformed_walk_parity", WalkParity(s.puzzle, Cfg.num_random_moves)>> }
            ELSE {})
    ELSE {})
-  \cup (IF RandomWalk /\ Cfg.num_random_moves >= 3 THEN C10NonConstant(i, LAMBDA s : s.puzzle) ELSE {})
+  \cup (IF RandomWalk /\ Cfg.num_random_moves >= 3 THEN C10NonConstant(i, LAMBDA st : st.puzzle) ELSE {})
 
 (* ---------------- C11: time limit as requested by the harness ---------------- *)
 C11(i) ==
